@@ -7,6 +7,7 @@
 package simconn
 
 import (
+	"fmt"
 	"strings"
 	"sync"
 	"sync/atomic"
@@ -99,6 +100,7 @@ type Stats struct {
 	SlowDrops     int
 	Lost          int
 	AfterClose    int
+	DeliveryPanics int
 }
 
 // New creates a connection.
@@ -342,13 +344,24 @@ func (c *Conn) DeliverHead(lose bool) *Delivery {
 		// scheduler goroutine never acquires anything from tasks, so this
 		// release carries only its own history
 		sched.RaceEnable()
-		select {
-		case d.Sub.Ch <- d.Msg:
-			c.Stats.Delivered++
-		default:
-			d.Dropped = "slow"
-			c.Stats.SlowDrops++
-		}
+		func() {
+			// nats.go would panic on its own goroutine, and take the process
+			// down, if the receiver closed the channel while the connection
+			// may still deliver
+			defer func() {
+				if v := recover(); v != nil {
+					d.Dropped = "panic: " + fmt.Sprint(v)
+					c.Stats.DeliveryPanics++
+				}
+			}()
+			select {
+			case d.Sub.Ch <- d.Msg:
+				c.Stats.Delivered++
+			default:
+				d.Dropped = "slow"
+				c.Stats.SlowDrops++
+			}
+		}()
 		c.sendSeq.Add(1)
 		sched.RaceDisable()
 	}
